@@ -8,7 +8,7 @@ the textbook behaviour, one at a time:
 
 * `alt`   — `OrderedChoice._parse` takes an alternative only if its result `is not None`;
             neutralised: an alternative that succeeded is taken whatever it returned;
-* `empty` — `OrderedChoice._parse` wraps the alternative's result in a list, so an alternative that
+* `empty` — `OrderedChoice._parse` and `Optional._parse` wrap the sub-result in a list, so one that
             matched nothing (result `[]`, e.g. `'a'*`) becomes the truthy `[[]]`: an empty
             NonTerminal is created, an unordered group counts the element as matched,
             `process_match` raises IndexError on it; neutralised: a falsy result stays falsy;
@@ -146,6 +146,11 @@ def bodyNodeQ (fx : Fix) (p : SubParser) (k : Nat) (nd : Node) (s : PState) : Re
       let cpos := s.pos
       match withWsCtxQ fx nd (fun s1 => choiceLoopQ fx p nd.kids cpos s1) s with
       | (.nomatch, s2) => (.nomatch, s2.nmRaise cpos)
+      | r => r
+  | .opt =>
+      -- `Optional._parse` returns `[result]`: a falsy result (`[]` of `'x'*`) becomes the truthy `[[]]`
+      match bodyNode p k nd s with
+      | (.ok (.list [v]), s2) => if fx.empty && !v.truthy then (.ok .none, s2) else (.ok (.list [v]), s2)
       | r => r
   | .star =>
       match nd.kids with
